@@ -417,7 +417,7 @@ func TestC19a(t *testing.T) {
 	core.Run(t, core.Spec[CaseA]{
 		Property: "C19", Sub: "a",
 		Rule: "generated hcldec spec / gohcl struct type (attributes: string number bool list set map object tuple any; blocks: single list set map(1-2 labels) tuple object attrs, 0-2 labels, nesting<=3) + conforming or single-fault instance, rendered as plain native text (reference) and 2-5 forms composing: JSON syntax (own emitter from json/spec.md), shuffled items, comments/odd whitespace/CRLF, hclwrite.Format, k-way split merged with hcl.MergeFiles (attributes in exactly one file, per-type block order kept), runs of blocks folded into dynamic blocks (tuple/object/variable for_each, labels, custom iterator, nested, inherited iterator) expanded with dynblock.Expand. Oracle: every form agrees with the reference on has-errors and on the decoded value for hcldec.Decode and gohcl.DecodeBody, and the reference of a conforming instance decodes to the instance. Non-trivial: >=1 repeated or labelled block and a form composing >=2 rewrites; distinct = (valid/faulty, nesting>=2, widest rewrite combination of the case)",
-		Gen:   genA, Check: checkA, Classify: classifyA,
+		Gen:  genA, Check: checkA, Classify: classifyA,
 		Assumptions: []string{
 			"go-cty (conversion, number parsing, set ordering) is the trusted base of the expected values",
 			"strings containing the literal text $${ or %%{ are not generated (their template escaping is not pinned down by the in-tree documentation)",
